@@ -57,6 +57,11 @@ type Inst struct {
 
 type critErr struct{ err error }
 
+// panicErr marks a panic that was not a crit() call.
+type panicErr struct{ msg string }
+
+func (p panicErr) Error() string { return "panic: " + p.msg }
+
 func crit(err error) { panic(critErr{err}) }
 
 func (in *Inst) callbacks() lachesis.ConsensusCallbacks {
@@ -151,7 +156,8 @@ func guarded(f func() error) (err error, critical bool) {
 				err, critical = ce.err, true
 				return
 			}
-			panic(p)
+			// any other panic inside the library is recorded as such (the specification has no step for it)
+			err, critical = panicErr{fmt.Sprint(p)}, true
 		}
 	}()
 	return f(), false
